@@ -423,7 +423,7 @@ def run(ctx):
                                            "decomp.schur:quaternion_schur_pure_implicit": mk_s("quaternion_schur_pure_implicit")})
         st, out = run_guarded(lambda: it.run(f_uni, [sym_quat("a", (2, 2))], dict(variant=variant, max_iter=7, tol=TOL)))
         ok = st == "ok" and len(seen) == 1 and seen[0][0] == target and seen[0][1].get("shift_mode") == mode and \
-            seen[0][1].get("max_iter") == 7 and P(seen[0][1].get("tol")).same(TOL)
+            seen[0][1].get("max_iter") == 7 and seen[0][1].get("tol") is not None and P(seen[0][1].get("tol")).same(TOL)
         ctx.ob("C10.D1.dispatch", f"unified variant {variant!r}", ok, "unified API does not forward to the documented routine / options",
                where=f_uni.where, construct=f"unified dispatch {variant}", loc=f_uni.loc())
 
